@@ -1,13 +1,15 @@
 """Case descriptions for the lifecycle checks and their execution in worker processes.
 
 A case is a JSON-able dict
-    {'tr': 'pty'|'popen'|'fd'|'socket'|'run', 'kind': ..., 'disp': 'default'|'ignore',
+    {'tr': 'pty'|'popen'|'fd'|'socket'|'run', 'kind': ..., 'disp': 'default'|'ignore'|'core',
+     'log': 'none'|'logfile'|'logfile_read'|'logfile_send',      (the caller's log file, open at the start)
+     'iso': 'sigign'|'lowfd', 'low': 0|1|2,                      (cases that need a process of their own)
      'items': [['op', name, arg] | ['env', action, value], ...]}
 `execute(case)` runs it on a REAL child / descriptor (harness/lifeworld.py) and returns the
 recorded events.  Environment actions that are not possible in the state the child is in (an
 exit command for a child that is already dead or stopped) are skipped and not logged.
 """
-import gc, itertools, os, resource, signal, sys, traceback
+import gc, itertools, json, os, resource, shutil, signal, subprocess, sys, tempfile, traceback
 from . import lifeworld as L
 
 WORKDIR = None
@@ -26,7 +28,9 @@ def init_worker(workdir):
     global WORKDIR
     WORKDIR = workdir
     os.chdir(workdir)
-    resource.setrlimit(resource.RLIMIT_CORE, (0, 0))
+    # no core files from the harness' own processes; the hard limit stays, so that the children
+    # of the "core" disposition can raise their own limit again
+    resource.setrlimit(resource.RLIMIT_CORE, (0, resource.getrlimit(resource.RLIMIT_CORE)[1]))
     L.install()
     signal.signal(signal.SIGALRM, _on_alarm)
     gc.disable()          # deterministic finalisation: reference counting only, explicit collections
@@ -35,20 +39,26 @@ def init_worker(workdir):
 def make(case):
     tr = case['tr']
     if tr == 'pty':
-        return L.PtyCase(WORKDIR, case.get('disp', 'default'))
+        return L.PtyCase(WORKDIR, case.get('disp', 'default'), log=case.get('log', 'none'))
     if tr == 'popen':
         return L.PopenCase(WORKDIR, case.get('disp', 'default'))
     if tr in ('fd', 'socket'):
-        return L.FdCase(WORKDIR, tr, case['kind'])
+        return L.FdCase(WORKDIR, tr, case['kind'], log=case.get('log', 'none'), low=case.get('low'))
     raise ValueError(tr)
 
 
 def env_possible(w, it):
+    if it[1] == 'logclose':
+        return w.nlog() == 1
     if isinstance(w, L.ChildCase):
         if it[1] in ('exit', 'selfkill'):
             return w.k_state == 'run'
         if it[1] == 'sig':
             return w.k_state in ('run', 'stop')
+        if it[1] == 'stolen':
+            return w.transport == 'pty' and w.k_state == 'zombie' and not w.reaped_seen
+        if it[1] == 'waitsteal':
+            return w.transport == 'pty' and w.k_state == 'run'
         return False
     if it[1] == 'peerclose':
         return w.peer_open
@@ -105,7 +115,7 @@ def execute(case):
 
 
 def strip(ev):
-    return [{k: v for k, v in e.items() if k not in ('sys', 'final', 'kind')} for e in ev]
+    return [{k: v for k, v in e.items() if k not in ('sys', 'final', 'kind', 'low')} for e in ev]
 
 
 def nontrivial(ev):
@@ -126,13 +136,99 @@ def execute_json(case):
     """execute() with a compact result: ('ok', JSON text of the stripped events, non-trivial?, number
     of logged operations) | ('error', text) - the corpus of the thorough tier does not fit in memory
     as Python objects"""
-    import json
     o = execute(case)
     if 'error' in o:
         return ('error', o['error'])
     ev = strip(o['ev'])
     return ('ok', json.dumps(ev, sort_keys=True, separators=(',', ':')), nontrivial(ev),
             sum(1 for e in ev if e['e'] == 'op'))
+
+
+# ---- cases that need a process of their own ----------------------------------------------------------
+# 'sigign': the host program ignores SIGCHLD (process-global: the kernel reaps every child itself and
+#           keeps no status) - it must not reach the pool workers, whose oracle is waitid(WNOWAIT);
+# 'lowfd':  the wrapped descriptor has the number 0, 1 or 2 - the helper gives up its own standard
+#           streams for that, the harness' stay untouched.
+def helper_main():
+    """python -c 'from harness import lifecases; lifecases.helper_main()' : a request
+    {'workdir', 'mode', 'cases'} on stdin, the list of execute_json() results on stdout"""
+    import fcntl
+    fin = fcntl.fcntl(0, fcntl.F_DUPFD_CLOEXEC, 100)
+    fout = fcntl.fcntl(1, fcntl.F_DUPFD_CLOEXEC, 100)
+    with os.fdopen(fin, 'rb') as f:
+        req = json.loads(f.read().decode())
+    try:
+        outs = _helper_run(req)
+    except BaseException:
+        outs = [('error', 'helper: ' + traceback.format_exc())] * len(req['cases'])
+    with os.fdopen(fout, 'wb') as f:
+        f.write(json.dumps(outs).encode())
+    os._exit(0)
+
+
+def _helper_run(req):
+    import fcntl
+    null = os.open(os.devnull, os.O_RDWR)
+    quiet = os.fdopen(fcntl.fcntl(null, fcntl.F_DUPFD_CLOEXEC, 100), 'w')
+    for n in (0, 1, 2):
+        os.dup2(null, n)
+    os.close(null)
+    sys.stdout = sys.stderr = quiet          # nothing of the interpreter's may go to the numbers 0..2
+    mode = req['mode']
+    if mode == 'sigign':
+        signal.signal(signal.SIGCHLD, signal.SIG_IGN)     # before anything is spawned, as a host program would
+        L.AUTOREAP = True
+    init_worker(req['workdir'])
+    outs = []
+    for case in req['cases']:
+        low = case.get('low') if mode == 'lowfd' else None
+        if low is not None:
+            os.close(low)                    # this program runs without that standard stream
+        try:
+            outs.append(execute_json(case))
+        finally:
+            if low is not None:
+                # whatever the case left on the number is let go, the number is occupied again
+                fd = os.open(os.devnull, os.O_RDWR)
+                if fd != low:
+                    os.dup2(fd, low)
+                    os.close(fd)
+    return outs
+
+
+def execute_iso_chunk(cases):
+    """run cases of ONE isolation mode in a fresh helper process -> list of execute_json() results"""
+    mode = cases[0]['iso']
+    req = json.dumps({'workdir': WORKDIR, 'mode': mode, 'cases': cases}).encode()
+    try:
+        p = subprocess.run([sys.executable, '-c', 'from harness import lifecases; lifecases.helper_main()'],
+                           input=req, stdout=subprocess.PIPE, stderr=subprocess.PIPE, timeout=30 + 25 * len(cases),
+                           cwd=WORKDIR)
+        outs = [tuple(o) for o in json.loads(p.stdout.decode())]
+        if len(outs) != len(cases):
+            raise ValueError('%d results for %d cases' % (len(outs), len(cases)))
+        return outs
+    except Exception as e:
+        err = 'helper process (%s) failed: %r\n%s' % (mode, e, traceback.format_exc())
+        try:
+            err += '\nstderr: ' + p.stderr.decode(errors='replace')[-2000:] + '\nstdout: ' + p.stdout.decode(errors='replace')[-500:]
+        except Exception:
+            pass
+        return [('error', err)] * len(cases)
+
+
+def execute_any(case):
+    """execute() for every kind of case (isolated ones through their helper process) -> like execute()"""
+    if not case.get('iso'):
+        return execute(case)
+    o = execute_iso_chunk([case])[0]
+    if o[0] == 'error':
+        return {'error': o[1]}
+    return {'ev': json.loads(o[1])}
+
+
+def execute_any_json(case):
+    return execute_iso_chunk([case])[0] if case.get('iso') else execute_json(case)
 
 
 # ---- run(..., withexitstatus=True): the operations run() performs, observed from inside ----------
@@ -143,6 +239,7 @@ def execute_run(case):
     import pexpect
     runmod = sys.modules['pexpect.run']
     fate = tuple(case['fate'])
+    core = bool(case.get('core'))
     holder = {}
     signal.alarm(20)
 
@@ -158,7 +255,12 @@ def execute_run(case):
             self.k_pend = set()
             self.k_fd_closed = True
             self.fate = fate                 # chosen by the harness: the command line says so
-            self.events.append({'e': 'init', 'tr': 'pty', 'disp': 'default'})
+            # the core flag: as the kernel reports it with waitid(WNOWAIT) at the end of the stream (see
+            # CapSpawn.expect); should pexpect have reaped the child before that, what the probe of
+            # this kernel showed for such a child (the case is only built when it dumps core)
+            self.fate_core = core and fate[0] == 'sig' and fate[1] in L.CORE_SIGNALS
+            self.dir = tempfile.mkdtemp(dir=WORKDIR) if core else None
+            self.events.append(self.init_event(disp='core' if core else 'default'))
             self.events.append({'e': 'env', 'a': 'exit' if fate[0] == 'exit' else 'sig', 'v': fate[1]})
 
         observe = L.PtyCase.observe
@@ -168,10 +270,12 @@ def execute_run(case):
             pass
 
         def real_fate(self):
-            return {'fk': self.fate[0], 'fv': self.fate[1]}
+            return {'fk': self.fate[0], 'fv': self.fate[1], 'fc': self.fate_core}
 
         def release(self):
             L.Case.release(self)
+            if self.dir is not None:
+                shutil.rmtree(self.dir, ignore_errors=True)
 
     w = RunCase()
     real_spawn = runmod.spawn
@@ -198,7 +302,9 @@ def execute_run(case):
                 # becomes a zombie, or has been reaped by the code under test already)
                 if not w.reaped_seen:
                     try:
-                        os.waitid(os.P_PID, w.pid, os.WEXITED | os.WNOWAIT)
+                        si = os.waitid(os.P_PID, w.pid, os.WEXITED | os.WNOWAIT)
+                        if si is not None:
+                            w.fate_core = si.si_code == os.CLD_DUMPED
                     except OSError:
                         pass
                 ev = {'e': 'op', 'op': 'Read', 'arg': 0, 'ret': ret, 'rv': -1, 'final': False, 'exc': ret != 'None'}
@@ -226,7 +332,8 @@ def execute_run(case):
     L._current = w
     runmod.spawn = CapSpawn
     try:
-        cmd = "/bin/sh -c 'exit %d'" % fate[1] if fate[0] == 'exit' else "/bin/sh -c 'kill -%d $$'" % fate[1]
+        pre = 'ulimit -c unlimited 2>/dev/null || ulimit -c $(ulimit -H -c); cd %s; ' % w.dir if core else ''
+        cmd = "/bin/sh -c '%sexit %d'" % (pre, fate[1]) if fate[0] == 'exit' else "/bin/sh -c '%skill -%d $$'" % (pre, fate[1])
         out, es = runmod.run(cmd, withexitstatus=True, timeout=30)
         w.events.append({'e': 'runret', 'rv': -1 if es is None else es, 'isnone': es is None, 'outlen': len(out)})
         holder.clear()
